@@ -97,7 +97,10 @@ def _work(args):
                                'stride': stride, 'tier': tier,
                                'run_seed': S.run_seed(base_seed,
                                                       prop.ID + '/' + fam, i)}
-                res = prop.execute(case)
+                # one run in six with the application's DEBUG logging on
+                if idx % 6 == 4:
+                    case['_debug_log'] = True
+                res = _execute(prop, case)
             except BaseException as e:
                 if isinstance(e, KeyboardInterrupt):
                     raise
@@ -123,7 +126,7 @@ def _work(args):
                     and res.nontrivial:
                 out['samples'].append(res.sample)
             if det_every and idx % det_every == 0:
-                res2 = prop.execute(copy.deepcopy(case))
+                res2 = _execute(prop, copy.deepcopy(case))
                 out['det_pairs'] += 1
                 if res2.digest != res.digest:
                     out['det_mismatch'].append((fam, i))
@@ -185,7 +188,7 @@ def shrink(prop, case, key, max_exec=400, deadline=None):
             return False
         budget[0] -= 1
         try:
-            res = prop.execute(copy.deepcopy(cand))
+            res = _execute(prop, copy.deepcopy(cand))
         except BaseException:
             return False
         return any(k == key for k, _ in res.violations)
@@ -259,7 +262,7 @@ def _run_prelude(prop, doc):
     that have to run first."""
     for c in doc.get('prelude') or []:
         try:
-            prop.execute(copy.deepcopy(c))
+            _execute(prop, copy.deepcopy(c))
         except BaseException:
             pass
 
@@ -269,7 +272,7 @@ def replay(prop, path):
         doc = json.load(f)
     case = doc['case']
     _run_prelude(prop, doc)
-    res = prop.execute(case)
+    res = _execute(prop, case)
     want = doc.get('key')
     print('replay %s: %d violation(s)' % (path, len(res.violations)))
     for k, m in res.violations:
@@ -346,8 +349,22 @@ def expect_key(prop, path, key):
     with open(path) as f:
         doc = json.load(f)
     _run_prelude(prop, doc)
-    res = prop.execute(doc['case'])
+    res = _execute(prop, doc['case'])
     return 3 if any(k == key for k, _ in res.violations) else 0
+
+
+def _execute(prop, case):
+    """prop.execute(case) under the logging configuration the case names."""
+    from . import bootstrap
+    dbg = bool(isinstance(case, dict) and case.get('_debug_log'))
+    bootstrap.set_debug_logging(dbg)
+    try:
+        res = prop.execute(case)
+    finally:
+        bootstrap.set_debug_logging(False)
+    if dbg:
+        res.stats['probe:debug_logging_enabled'] += 1
+    return res
 
 
 def run_check(prop, argv=None):
@@ -488,7 +505,7 @@ def run_check(prop, argv=None):
         try:
             with open(os.path.join(VERIF, rp)) as f:
                 doc = json.load(f)
-            r2 = prop.execute(doc['case'])
+            r2 = _execute(prop, doc['case'])
             hit = any(key_matches(k2, [kk]) for k2, _ in r2.violations)
         except BaseException as e:
             harness_error = 'known-finding replay %s failed: %r' % (rp, e)
